@@ -353,7 +353,7 @@ func isErrResultOf(v ssa.Value, calls []*ssa.Call) bool {
 // status.FromProto(x) where x.Code was stored a non-zero constant under the
 // Code()==OK edge.
 func okRewritten(st ssa.Value) bool {
-	for _, o := range core.Origins(st) {
+	for _, o := range core.XOrigins(st) {
 		if !core.IsResultOf(o, 0, statusPkg+".FromProto") {
 			continue
 		}
